@@ -56,6 +56,19 @@ def impl_file(desc):
                     r[0] = 0x7f
             except Exception:
                 pass
+    if (desc['tpb'] + len(desc['tracks'])) % 4 == 0:
+        # a merged track handed out earlier belongs to the caller: padding its end (or anything else done to it) must not
+        # show in a file that is saved later
+        try:
+            mt = mido.merge_tracks([mido.MidiTrack([mido.Message('note_on', note=1, time=3)]), mido.MidiTrack()])
+            mt[-1].time = 960
+            mf = mido.MidiFile(tracks=[mido.MidiTrack([mido.Message('note_on', note=2, time=0)])])
+            mm = mf.merged_track
+            mm[-1].time = 777
+            for x in mm:
+                x.time = 5
+        except Exception:
+            pass
     try:
         mid = smf.build_file(desc)
     except Exception as e:
